@@ -32,6 +32,7 @@ type Contract struct {
 	Commutes    []CommuteReq // map-range loops with a commutativity obligation
 	StoreGuards []*Clause    // storeguard[label] T.f: expr - must hold whenever the unit stores to field f of a T (Raw = "T.f"; value = the stored value)
 	ChanSends   []*Clause    // chansend[label]: expr over ch, val - must hold for every channel send (statement or select case) of the unit
+	CallPres    []*Clause    // callpre[label] <callee name>: expr over recv, arg0.. - must hold at every static call of that function in the unit (Raw = callee name)
 	DynCalls    []*Clause    // dyncall[label] <FuncTypeName>: expr over arg0.. - obligation at every call of a function value of that named type (Raw = type name)
 	SortBy      []*Clause    // sortby <k>: expr - meaning of the less closure of the k-th sort.Slice / sort.SliceStable call (Loop = k)
 	Carve       *Clause      // known-finding carve-out: every obligation is split into (cond ==> goal) and (!cond ==> goal)
@@ -47,6 +48,8 @@ type Contract struct {
 	Overflow    bool     // generate and claim overflow obligations (mode int)
 	Inline      bool     // callers inline the body instead of using the contract
 	Trusted     bool     // contract is assumed (body not verified)
+	TrustedPart bool     // "trusted callpre" / "trusted except L1 L2": contract assumed, but the callpre obligations of the body / the obligations labelled L1, L2 are checked
+	TrustedKeep []string // labels checked although the contract is otherwise assumed
 	Dispatch    []string
 	Lets        []*LetDef
 	External    bool     // contract on a function outside the module (always assumed)
@@ -265,7 +268,7 @@ func parseCExpr(text string) (ast.Expr, string, error) {
 }
 
 var clauseKeywords = map[string]bool{
-	"func": true, "props": true, "ghostensures": true, "case": true, "assume": true, "carve": true, "caseall": true, "commute": true, "sortby": true, "assumeframe": true, "guarded": true, "guardedfield": true, "dyncall": true, "storeguard": true, "chansend": true, "mode": true, "requires": true, "ensures": true, "invariant": true,
+	"func": true, "props": true, "ghostensures": true, "case": true, "assume": true, "carve": true, "caseall": true, "commute": true, "sortby": true, "assumeframe": true, "guarded": true, "guardedfield": true, "dyncall": true, "storeguard": true, "chansend": true, "callpre": true, "mode": true, "requires": true, "ensures": true, "invariant": true,
 	"modifies": true, "safety": true, "overflow": true, "inline": true, "trusted": true, "dispatch": true,
 	"let": true, "spec": true, "external": true, "uf": true, "params": true, "results": true,
 	"global": true, "noinline": true, "nocontract": true, "expand": true, "split": true, "strictpkgs": true, "modcomps": true, "axiom": true, "uses": true, "scan": true, "witness": true, "havoc": true, "inlineall": true, "unroll": true,
@@ -492,6 +495,16 @@ func (cs *ContractSet) parseContractSource(pkgPath, filename string, src []byte)
 					c.Raw = strings.TrimSpace(rest[:colon])
 					cur.StoreGuards = append(cur.StoreGuards, c)
 				}
+			case "callpre":
+				colon := strings.Index(rest, ":")
+				if colon < 0 {
+					bad(fmt.Errorf("callpre needs '<callee>:'"))
+					continue
+				}
+				if c := mk(strings.TrimSpace(rest[colon+1:])); c != nil {
+					c.Raw = strings.TrimSpace(rest[:colon])
+					cur.CallPres = append(cur.CallPres, c)
+				}
 			case "dyncall":
 				// dyncall[label] <FuncTypeName>: expr over arg0, arg1, ...
 				colon := strings.Index(rest, ":")
@@ -537,6 +550,12 @@ func (cs *ContractSet) parseContractSource(pkgPath, filename string, src []byte)
 				cur.InlineAll = true
 			case "trusted":
 				cur.Trusted = true
+				if strings.TrimSpace(rest) == "callpre" {
+					cur.TrustedPart = true
+				} else if fs := strings.Fields(rest); len(fs) > 1 && fs[0] == "except" {
+					cur.TrustedPart = true
+					cur.TrustedKeep = fs[1:]
+				}
 			case "uf":
 				cur.UF = true
 			case "unroll":
